@@ -12,39 +12,42 @@ package checkgroup
 //@ chaninv checkgroup.Result: msg.Err != nil ==> msg.Membership != checkgroup.IsMember
 //@ fieldinv checkgroup.concurrentCheckgroup.result: val.Err != nil ==> val.Membership != checkgroup.IsMember
 
+//@ globalinv checkgroup.ResultNotMember: val.Membership == NotMember && val.Err == nil
+//@ globalinv checkgroup.ResultIsMember: val.Membership == IsMember && val.Err == nil
+
 // ---- the CheckFunc protocol (C15): every CheckFunc sends exactly one result on
 // resultCh on every path, and receives nothing from it.
 
-//@ func functype::func(context.Context, chan<- checkgroup.Result)
+//@ func functype::checkgroup.CheckFunc
 //@   opt sends-once arg1
 //@   requires arg0 != nil && arg1 != nil
-//@   modifies chanstate(arg1)
+//@   modifies chanstate(arg1), faulted
 //@   ensures[C15] send-once: sent(arg1) == old(sent(arg1)) + 1 && recvd(arg1) == old(recvd(arg1))
 //@   ensures[C03] sent-inv: lastsent(arg1).Err != nil ==> lastsent(arg1).Membership != checkgroup.IsMember
 
 //@ func ErrorFunc$1
 //@   props C03 C15
-//@   like functype::func(context.Context, chan<- checkgroup.Result)
+//@   like functype::checkgroup.CheckFunc
 
 //@ func IsMemberFunc
 //@   props C03 C15
-//@   like functype::func(context.Context, chan<- checkgroup.Result)
+//@   like functype::checkgroup.CheckFunc
 //@   ensures lastsent(resultCh).Membership == IsMember && lastsent(resultCh).Err == nil
 
 //@ func NotMemberFunc
 //@   props C03 C15
-//@   like functype::func(context.Context, chan<- checkgroup.Result)
+//@   like functype::checkgroup.CheckFunc
 //@   ensures lastsent(resultCh).Membership == NotMember && lastsent(resultCh).Err == nil
 
 //@ func UnknownMemberFunc
 //@   props C02 C03 C15
-//@   like functype::func(context.Context, chan<- checkgroup.Result)
+//@   like functype::checkgroup.CheckFunc
 //@   ensures[C02] unknown: lastsent(resultCh).Membership == MembershipUnknown && lastsent(resultCh).Err == nil
 
 //@ func WithEdge$1
 //@   props C03 C15
 //@   opt abandon-props C15
-//@   like functype::func(context.Context, chan<- checkgroup.Result)
+//@   like functype::checkgroup.CheckFunc
 //@   requires f != nil
 
 // ---- Checkgroup interface (ASSUMED: the concurrent consumer is outside sequential
@@ -57,7 +60,8 @@ package checkgroup
 
 //@ func New
 //@   trusted
-//@   ensures result != nil && !gerr(result) && !gmem(result)
+//@   pure
+//@   ensures result != nil && fresh(result) && !gerr(result) && !gmem(result)
 
 //@ func Checkgroup.Add
 //@   trusted
@@ -78,7 +82,7 @@ package checkgroup
 //@   trusted
 //@   pure
 //@   ensures result.Err != nil ==> result.Membership != IsMember
-//@   ensures gerr(recv) && !gmem(recv) ==> result.Err != nil
+//@   ensures gerr(recv) ==> result.Err != nil || (gmem(recv) && result.Membership == IsMember)
 //@   ensures !gmem(recv) ==> result.Membership != IsMember
 
 //@ func Checkgroup.CheckFunc
@@ -90,7 +94,7 @@ package checkgroup
 
 //@ func (*concurrentCheckgroup).CheckFunc$1
 //@   props C03 C15
-//@   like functype::func(context.Context, chan<- checkgroup.Result)
+//@   like functype::checkgroup.CheckFunc
 //@   requires g != nil && ctx != nil && g.doneCh != nil && g.finalizeCh != nil && g.cancel != nil
 
 //@ func receiveRemaining
